@@ -261,7 +261,7 @@ harness!(none, 180, c19_u32_c5_r3_r1_r4, resize2_body::<u32, U5, 3, 1, 4>());
 harness!(none, 180, c19_u8_c16_r2_r0_r3, resize2_body::<u8, U16, 2, 0, 3>());
 //@ C19 quick 800 DenseMatrix<f32, 7>: new(2), writes, resize(3), resize(1), fill
 harness!(none, 180, c19_f32_c7_r2_r3_r1, resize2_body::<f32, U7, 2, 3, 1>());
-//@ C19 thorough 1800 DenseMatrix<u32, 43> (stride 48): new(2) ... resize(4) | mem=12
+//@ C19 quick 800 DenseMatrix<u32, 43> (stride 48): new(2) ... resize(4) | mem=12
 harness!(none, 200, c19_u32_c43_r2_r4, ops_body::<u32, U43, 2, 4>());
 //@ C19 quick 800 DenseMatrix<i64, 21> (stride 24): new(3) ... resize(2) | mem=12
 harness!(none, 180, c19_i64_c21_r3_r2, ops_body::<i64, U21, 3, 2>());
